@@ -1012,6 +1012,7 @@ class Client:
         # If the value is the max size for the MTU, try to read more unless the caller
         # specifically asked not to do that
         attribute_value = response.attribute_value
+        read_mtu = self.mtu
         if not no_long_read and len(attribute_value) == self.mtu - 1:
             logger.debug('using READ BLOB to get the rest of the value')
             offset = len(attribute_value)
@@ -1028,6 +1029,12 @@ class Client:
                         att.ATT_ATTRIBUTE_NOT_LONG_ERROR,
                         att.ATT_INVALID_OFFSET_ERROR,
                     ):
+                        if self.mtu != read_mtu:
+                            # The ATT_MTU changed since the first part was received
+                            # (an MTU exchange was queued behind the Read Request):
+                            # "not long" is relative to the new MTU, and what we
+                            # have is only the head of the value. Start over.
+                            return await self.read_value(attribute, no_long_read)
                         break
                     raise att.ATT_Error(
                         error_code=response.error_code, message=response
